@@ -311,7 +311,7 @@ func ExecNCLoop(c *HistCase, pfx string, reapply bool, rollback *LoopRollback) (
 				if va, ok := na[k]; ok && va == vb {
 					continue
 				}
-				if _, managed := mergeBefore[k]; managed {
+				if _, managed := mergeBefore[k]; managed && !MustCanon(k).IsKeyLeaf() {
 					onlyUnmanaged = false
 				}
 			}
